@@ -60,6 +60,9 @@ var (
 	// The order the apparmor rules should be sorted
 	ruleAlphabet = []Kind{
 		INCLUDE,
+		ABI,
+		ALIAS,
+		VARIABLE,
 		ALL,
 		RLIMIT,
 		USERNS,
